@@ -55,6 +55,42 @@ def param_forms(seed):
                                                                    'capa': [1., -2.], 'price': [2., 6.]}, full_exec=True)))
     out.append(('orderbook_dataframe', lambda: A.OrderBook('ob', n1, orders=pd.DataFrame({'start': [pd.Timestamp(S0), pd.Timestamp(S0 + 2 * H)],
                                                                                          'end': [pd.Timestamp(S0 + 3 * H), pd.Timestamp(S0 + 5 * H)], 'capa': [1., -2.], 'price': [2., 6.]}))))
+    # instances with (nearly) every constructor parameter away from its default
+    n3 = A.Node('n3')
+    tk = lambda v: {'start': [S0], 'end': [S0 + 6 * H], 'values': [v]}
+    out.append(('rich_simplecontract_periodic', lambda: A.SimpleContract('c', n1, start=S0 + H, end=S0 + 9 * H, wacc=0.1, price='p1', extra_costs=0.25, min_cap=-1., max_cap=2.,
+                                                                         periodicity='2h', periodicity_duration='4h')))
+    out.append(('rich_simplecontract_freq', lambda: A.SimpleContract('c', n1, wacc=0.1, price='p1', extra_costs=0.25, min_cap=-1., max_cap=2., freq='2h')))
+    out.append(('rich_contract', lambda: A.Contract('c', n1, start=S0, end=S0 + 6 * H, wacc=0.05, price='p1', extra_costs=0.5, min_cap=-1., max_cap=3., min_take=tk(-2.), max_take=tk(6.),
+                                                    periodicity='3h')))
+    out.append(('rich_transport', lambda: A.Transport('t', [n1, n2], start=S0 + H, end=S0 + 6 * H, wacc=0.1, costs_const=0.2, costs_time_series='p2', min_cap=-1., max_cap=2., efficiency=0.75,
+                                                      periodicity='2h', periodicity_duration='4h')))
+    out.append(('rich_exttransport', lambda: A.ExtendedTransport('t', [n1, n2], wacc=0.1, costs_const=0.2, costs_time_series='p2', min_cap=0., max_cap=2., efficiency=0.75,
+                                                                 min_take=tk(1.), max_take=tk(7.), freq='2h')))
+    out.append(('rich_storage_periodic', lambda: A.Storage('s', n1, start=S0, end=S0 + 6 * H, wacc=0.1, size=3., cap_in=1., cap_out=2., start_level=1., end_level=1., cost_out=0.2, cost_in=0.1,
+                                                           cost_store=0.05, eff_in=0.5, inflow=0.25, price='p1', periodicity='3h')))
+    out.append(('rich_multicommodity', lambda: A.MultiCommodityContract('m', [n1, n2, n3], start=S0, end=S0 + 6 * H, wacc=0.1, price='p1', extra_costs=0.5, min_cap=0., max_cap=2.,
+                                                                       min_take=tk(1.), max_take=tk(8.), factors_commodities=[1., 0.5, -2.])))
+    chp = dict(start=S0, end=S0 + 6 * H, wacc=0.1, price='p1', extra_costs=0.25, min_cap=1., max_cap=4., min_take=tk(2.), max_take=tk(20.), ramp=2., start_costs=1.5, running_costs=0.5,
+               min_runtime=2, time_already_running=1, min_downtime=2, time_already_off=0, last_dispatch=1., start_ramp_lower_bounds=[1., 2.], start_ramp_upper_bounds=[1.5, 2.5],
+               shutdown_ramp_lower_bounds=[1.], shutdown_ramp_upper_bounds=[2.], ramp_freq='h')
+    out.append(('rich_plant', lambda: A.Plant('pl', [n1, n3], start_fuel=1., fuel_efficiency=0.5, consumption_if_on=0.25, **chp)))
+    out.append(('rich_chp', lambda: A.CHPAsset('chp', [n1, n2, n3], conversion_factor_power_heat=0.5, max_share_heat=0.75, start_fuel=1., fuel_efficiency=0.5, consumption_if_on=0.25,
+                                               start_ramp_lower_bounds_heat=[0., 0.5], start_ramp_upper_bounds_heat=[0.5, 1.], shutdown_ramp_lower_bounds_heat=[0.], shutdown_ramp_upper_bounds_heat=[1.],
+                                               **chp)))
+    out.append(('rich_chp_min_load', lambda: A.CHPAsset_with_min_load_costs(name='chp', nodes=[n1, n2], conversion_factor_power_heat=0.5, max_share_heat=0.75, min_load_threshhold=2., min_load_costs=0.75,
+                                                                           **{k: v for k, v in chp.items() if not k.startswith(('start_ramp', 'shutdown_ramp', 'ramp_freq'))})))
+    return out
+
+
+def ctor_params(cls):
+    import inspect
+    out = {}
+    for c in reversed(cls.__mro__):
+        if '__init__' in c.__dict__:
+            for n, p_ in inspect.signature(c.__init__).parameters.items():
+                if n not in ('self', 'args', 'kwargs'):
+                    out[n] = p_.default
     return out
 
 
@@ -225,6 +261,20 @@ def run(tier, seed):
                 chk.violation(dict(sel, step='resave', error=type(e).__name__), 're-saving raised %s' % type(e).__name__, dict(object=label))
                 continue
             ok = True
+            # every constructor parameter the object carries as an attribute has the same value after the round trip
+            norm = lambda v: json.loads(eao.serialization.to_json(v))
+            for pn in ctor_params(type(obj)):
+                if not hasattr(obj, pn):
+                    continue
+                try:
+                    same = hasattr(obj2, pn) and norm(getattr(obj, pn)) == norm(getattr(obj2, pn))
+                except Exception:
+                    continue
+                chk.cnt['eval_parameters_compared'] += 1
+                if not same:
+                    chk.violation(dict(sel, step='parameter_lost', parameter=pn), 'parameter %s = %r of the original is %r after the round trip' % (
+                        pn, getattr(obj, pn), getattr(obj2, pn, '<missing>')), dict(object=label, parameter=pn))
+                    ok = False
             for gname, gf in grids().items():
                 if label.startswith('zoo') and gname == 'cet':
                     continue
